@@ -447,6 +447,19 @@ def to_tar(members, fmt="ustar"):
     return buf.getvalue()
 
 
+def member_path(rng, base):
+    """a path for an archive member: short, longer than the 100-byte name field of a tar header (GNU long-name entry,
+    pax `path=` record, ustar prefix split), or non-ASCII"""
+    style = rng.choice(("short", "short", "long", "non_ascii", "dir"))
+    if style == "long":
+        return "logs-" + "d" * 55 + "/" + "host-" + "e" * 60 + "/" + base
+    if style == "non_ascii":
+        return "dir-\u00e9-\u65e5\u672c/" + base
+    if style == "dir":
+        return "var/log/" + base
+    return base
+
+
 def random_container(rng, kind, data, mtime=0, name="x.log"):
     """Encode `data` in container `kind` with seed-chosen codec parameters. Returns (bytes, descr)."""
     if kind == "plain":
